@@ -294,8 +294,11 @@ theorem tx_ser_parse (b : Bytes) (t : Tx) (rest : Bytes) (hp : Tx.parse b = .ok 
                 rw [e1, e2, e3, e5]
                 simp only [List.append_assoc]
 
-theorem tx_size_eq (w : Bool) (t : Tx) (hv : Tx.Valid t) : Tx.size w t = (Tx.ser w t).length := by
-  obtain ⟨_, _, hvin, hvout, hwit, _⟩ := hv
+theorem Tx.Valid.struct {t : Tx} (hv : Tx.Valid t) : Tx.StructValid t :=
+  ⟨hv.1, hv.2.1, hv.2.2.1, hv.2.2.2.1, hv.2.2.2.2.1⟩
+
+theorem tx_size_eq (w : Bool) (t : Tx) (hv : Tx.StructValid t) : Tx.size w t = (Tx.ser w t).length := by
+  obtain ⟨_, _, hvin, hvout, hwit⟩ := hv
   unfold Tx.size Tx.ser
   have a := lawful_vinC.size_eq _ hvin
   rw [vinC_size_strip, vinC_ser_strip] at a
@@ -311,7 +314,7 @@ theorem tx_size_eq (w : Bool) (t : Tx) (hv : Tx.Valid t) : Tx.size w t = (Tx.ser
 theorem lawful_tx : Lawful tx where
   parse_ser t rest hv := tx_parse_ser t rest hv
   ser_parse b t rest hp := tx_ser_parse b t rest hp
-  size_eq t hv := tx_size_eq true t hv
+  size_eq t hv := tx_size_eq true t hv.struct
 
 /-- the stripped serialization parses to the stripped transaction -/
 theorem tx_parse_ser_stripped (t : Tx) (rest : Bytes) (hv : Tx.Valid t) :
@@ -355,6 +358,28 @@ theorem lawful_blockHeader : Lawful blockHeader := by
 theorem blockHeader_length (h : BlockHeader) (hv : blockHeader.valid h) :
     (blockHeader.ser h).length = Gen.Wire.HEADER_LENGTH := by
   rw [← lawful_blockHeader.size_eq h hv]; rfl
+
+theorem witness_valid (w : List Bytes) :
+    witness.valid w ↔ (w.length ≤ Gen.Wire.MAX_WITNESS_STACK_ITEMS ∧ w.length < 2 ^ 64) ∧
+      ∀ x ∈ w, x.length ≤ Gen.VarInt.MAX_SIZE := by
+  simp only [witness, listOf_valid, varBytes_valid]
+
+theorem blockHeader_valid (h : BlockHeader) :
+    blockHeader.valid h ↔ (-(2 ^ 31 : Int) ≤ h.version ∧ h.version < 2 ^ 31) ∧ h.prevHash.length = 32 ∧
+      h.merkleRoot.length = 32 ∧ h.time < 2 ^ 32 ∧ h.bits.length = 4 ∧ h.nonce < 2 ^ 32 := by
+  simp only [blockHeader, Codec.guardLen, Codec.map, headerFields, pair, intLE4_valid, revBytesN_valid,
+    uintLE_valid]
+  constructor
+  · rintro ⟨⟨a, b, c, d, e, f⟩, _⟩; exact ⟨a, b, c, by omega, e, by omega⟩
+  · rintro ⟨a, b, c, d, e, f⟩; exact ⟨⟨a, b, c, by omega, e, by omega⟩, trivial⟩
+
+theorem block_valid (b : Block) :
+    block.valid b ↔ blockHeader.valid b.header ∧
+      ((b.txs.length ≤ Gen.Wire.MAX_BLOCK_TX_COUNT ∧ b.txs.length < 2 ^ 64) ∧ ∀ t ∈ b.txs, Tx.Valid t) := by
+  simp only [block, Codec.map, pair, listOf_valid]
+  constructor
+  · rintro ⟨⟨a, c⟩, _⟩; exact ⟨a, c⟩
+  · rintro ⟨a, c⟩; exact ⟨⟨a, c⟩, trivial⟩
 
 theorem lawful_block : Lawful block :=
   lawful_map (lawful_pair lawful_blockHeader (lawful_listOf _ lawful_tx)) _ _ (fun _ _ => rfl)
